@@ -554,9 +554,13 @@ func (ev *SpecEnv) valEq(a, b Val, e ast.Expr) *Term {
 	switch x := a.(type) {
 	case IfaceV:
 		if y, ok := b.(IfaceV); ok {
-			// identity of interface values: same kind and same payload (only for scalars); conservative
-			_ = y
-			ev.fail("interface equality not supported in specs: %s", exprString(e))
+			// as in the code: same dynamic type and equal payload / identity
+			return ev.ex.valEq(ev.st, x, y, nil)
+		}
+		if y, ok := b.(PtrV); ok && y.K == PCell && y.Elem != nil {
+			// an interface value compared with a package-level pointer (targetType != SignedFixedPointType)
+			pt := types.NewPointer(y.Elem)
+			return ev.ex.valEq(ev.st, x, IfaceV{Kind: IntC(int64(ev.ex.P.TypeTag(pt))), Conc: pt, Payload: y}, nil)
 		}
 	case StructV:
 		if y, ok := b.(StructV); ok {
